@@ -444,6 +444,33 @@ fn pair_laws(a: &DIDUrl, b: &DIDUrl, obs: &mut Obs) -> CheckResult {
     "didurl-eq-hash-disagree",
     "{a} == {b} but their hashes differ"
   );
+  // the relative part and the DID carry comparison and hashing impls of their own: the same laws, and a DID URL is
+  // equal to another exactly when both of its parts are
+  let (ra, rb) = (a.url(), b.url());
+  let (req, rord) = (ra == rb, ra.cmp(rb));
+  vensure!(
+    obs,
+    req == (rb == ra) && req == (rord == Ordering::Equal) && rb.cmp(ra) == rord.reverse() && ra.partial_cmp(rb) == Some(rord),
+    "relative-url-eq-ord-disagree",
+    "relative parts {ra} and {rb}: == is {req}, cmp {rord:?}, reverse cmp {:?}",
+    rb.cmp(ra)
+  );
+  vensure!(obs, !req || hash_of(ra) == hash_of(rb), "relative-url-eq-hash-disagree", "relative parts {ra} == {rb} but their hashes differ");
+  let (da, db) = (a.did(), b.did());
+  let deq = da == db;
+  vensure!(
+    obs,
+    deq == (da.cmp(db) == Ordering::Equal) && (!deq || hash_of(da) == hash_of(db)),
+    "did-eq-ord-hash-disagree",
+    "DIDs {da} and {db}: == is {deq}, cmp {:?}",
+    da.cmp(db)
+  );
+  vensure!(
+    obs,
+    eq == (req && deq),
+    "didurl-eq-not-componentwise",
+    "{a} == {b} is {eq} although their DIDs are equal: {deq} and their relative parts are equal: {req}"
+  );
   Ok(())
 }
 
@@ -1032,6 +1059,32 @@ fn order_equivalents_pool() -> Vec<String> {
   pool
 }
 
+/// DID URLs that differ only in letter case or in the case of percent-encoding hex digits — 3 DIDs × 4 paths ×
+/// 2 queries × 2 fragments = 48 URLs, every ordered triple.
+fn order_case_twins_pool() -> Vec<String> {
+  let mut pool = Vec::new();
+  for did in ["did:a:1", "did:a:1:x", "did:a:1:X"] {
+    for path in ["/a", "/A", "/%3a", "/%3A"] {
+      for query in ["?x", "?X"] {
+        for fragment in ["#f", "#F"] {
+          pool.push(format!("{did}{path}{query}{fragment}"));
+        }
+      }
+    }
+  }
+  pool
+}
+
+fn order_case_twins_grid() -> impl Iterator<Item = Case> {
+  let pool = order_case_twins_pool();
+  let n = pool.len();
+  (0..n * n * n).map(move |i| Case::Order {
+    a: pool[i / (n * n)].clone(),
+    b: pool[i / n % n].clone(),
+    c: pool[i % n].clone(),
+  })
+}
+
 fn order_equivalents_grid() -> impl Iterator<Item = Case> {
   let pool = order_equivalents_pool();
   let n = pool.len();
@@ -1293,6 +1346,7 @@ pub fn run(ctx: &mut Ctx) {
   ctx.exhaustive("set-grid", move || set_grid(depth - 1), check);
   ctx.exhaustive("order-grid", order_grid, check);
   ctx.exhaustive("order-equivalents", order_equivalents_grid, check);
+  ctx.exhaustive("order-case-twins", order_case_twins_grid, check);
   ctx.proptest("strings", ctx.pick(300_000, 6_000_000), parse_strategy, check);
   ctx.proptest("set-did", ctx.pick(100_000, 2_000_000), set_did_strategy, check);
   ctx.proptest("set-url", ctx.pick(200_000, 4_000_000), set_url_strategy, check);
